@@ -254,7 +254,9 @@ INJECTIONS = ["unknown-field", "leaf-with-selection", "composite-without-selecti
               "dup-field-args-reordered", "dup-field-args-reordered-conflict",
               "input-object-valid", "duplicate-input-key", "unknown-input-field", "missing-required-input-field", "input-field-wrong-type",
               "nullable-var-required-input-field", "nullable-var-defaulted-input-field", "nested-duplicate-input-key", "input-var-default-object",
-              "subscription-two-fields", "subscription-fragment-two-fields", "subscription-same-key-twice", "subscription-inline-one-field", "mutation-valid", "cycle-behind-shared-fragment", "shared-fragment-no-cycle"]
+              "subscription-two-fields", "subscription-fragment-two-fields", "subscription-same-key-twice", "subscription-inline-one-field", "mutation-valid", "cycle-behind-shared-fragment", "shared-fragment-no-cycle",
+              "cross-fragment-conflict-11", "cross-fragment-conflict-12", "cross-fragment-conflict-21", "cross-fragment-conflict-22", "cross-fragment-compatible",
+              "two-operations-shared-fragment-variable-types"]
 
 
 def normalise(doc):
@@ -467,6 +469,22 @@ def _inject(doc, label, rng):
         doc["defs"] += [fr("CsA", [spread("CsB"), spread("CsC"), spread("CsD")]), fr("CsB", [spread("CsC")]), fr("CsC", [field("a")]),
                         fr("CsD", [field("o", "", [], [spread("CsA")])] if label.startswith("cycle") else [field("s")])]
         op["sel"].append(field("o", "cs", [], [spread("CsA")]))
+    elif label.startswith("cross-fragment-"):
+        # o { ...Xf1 ...Xf2 }  o { ...Xg1 ...Xg2 }: the only conflict lies between fragment i of the first and fragment j of the second field
+        i, j = (int(label[-2]), int(label[-1])) if label[-1].isdigit() else (0, 0)
+        def fr(n, sel):
+            return {"k": "frag", "name": n, "op": "", "vars": [], "on": "Obj", "sel": sel}
+        doc["defs"] += [fr("Xf1", [field("a", "xk" if i == 1 else "xf1")]), fr("Xf2", [field("a", "xk" if i == 2 else "xf2")]),
+                        fr("Xg1", [field("s", "xk" if j == 1 else "xg1")]), fr("Xg2", [field("s", "xk" if j == 2 else "xg2")])]
+        op["sel"] += [field("o", "xo", [], [spread("Xf1"), spread("Xf2")]), field("o", "xo", [], [spread("Xg1"), spread("Xg2")])]
+    elif label == "two-operations-shared-fragment-variable-types":
+        # the same fragment reached from two operations that declare the variable with different types: compatible for the first only
+        doc["defs"].append({"k": "frag", "name": "Tsv", "op": "", "vars": [], "on": "Query", "sel": [field("b", "tsv", [{"name": "x", "value": {"k": "var", "n": "tv"}}])]})
+        if not op["name"]:
+            op["name"] = "Main"
+        op["vars"].append(vardef("tv"))
+        op["sel"].append(spread("Tsv"))
+        doc["defs"].append({"k": "op", "name": "Second", "op": "query", "vars": [vardef("tv", {"k": "list", "of": named("Int")})], "on": "", "sel": [spread("Tsv")]})
     elif label == "repeated-inline-unknown-field":
         op["sel"].append(field("o", "riu", [], [inline("Obj", [field("a")]), inline("Obj", [field("nope")])]))
     elif label == "bad-variable-default":
@@ -537,7 +555,7 @@ def rename(doc):
     return doc
 
 
-LAYOUT = [" ", "  ", "\n", "\t", ",", " , ", "\r\n", "\r", " # comment\n", "#c\twith a tab, and {braces}\n", "\ufeff", "\n\n  ", ",,"]
+LAYOUT = [" ", "  ", "\n", "\t", ",", " , ", "\r\n", "\r", " # comment\n", "#c\twith a tab, and {braces}\n", "# cr ends a comment\r", " #crlf too\r\n", "\ufeff", "\n\n  ", ",,"]
 
 
 def respell(text, rng):
